@@ -43,6 +43,7 @@ type covRec struct {
 	normSrc  *eng.Term
 	iterBad  string    // first per-iteration violation (chains / submits)
 	wrapBad  string    // an exec outcome wrapped without the is-it-a-Result test
+	cutBad   string    // an item cut short by cancellation whose slot error does not match the context's error
 	emptyOf  *eng.Term // the loop ran zero iterations because this slice was empty
 	storePos string
 }
@@ -72,7 +73,7 @@ type batchState struct {
 func (s batchState) Key() string {
 	var sb strings.Builder
 	for _, r := range s.recs {
-		fmt.Fprintf(&sb, "[%s|%s|%d|%v%v%v|%s|%d|%d,%d|%v|%s|%s|%s|%s|%s|%s]", r.loop, r.base.Key(), r.c, r.startOK, r.stored, r.skipped, r.broken, r.done, r.chains, r.submits, r.failed, r.resBad, r.fillBad, r.normBad, r.normSrc.Key()+"/"+r.emptyOf.Key(), r.iterBad+"/"+r.wrapBad, r.storePos)
+		fmt.Fprintf(&sb, "[%s|%s|%d|%v%v%v|%s|%d|%d,%d|%v|%s|%s|%s|%s|%s|%s]", r.loop, r.base.Key(), r.c, r.startOK, r.stored, r.skipped, r.broken, r.done, r.chains, r.submits, r.failed, r.resBad, r.fillBad, r.normBad, r.normSrc.Key()+"/"+r.emptyOf.Key(), r.iterBad+"/"+r.wrapBad+"/"+r.cutBad, r.storePos)
 	}
 	fmt.Fprintf(&sb, "%v,%d,%d,%s,%v,%v,%s,%v%v,%v,%s,%s|", s.chainOpen, s.inTask, s.held, s.flagRead.Key(), s.flagReadOK, s.flagSet, s.pool.Key(), s.outstanding, s.closed, s.poolEvents || s.submitted, s.conc.Key(), s.execIdx.Key())
 	for _, b := range s.execBases {
@@ -371,6 +372,8 @@ func (m *BatchMon) OnEvent(c *eng.Ctx, ms eng.MState, ev *eng.Event) eng.MState 
 			s.closed = true
 		case "cb:Exec":
 			s = m.onExec(c, s, life, ev, chk)
+		case "cb:ExecFallback":
+			chk("C08.R8,C09.R2", "item-exec", s.held == 0, "an item's fallback runs while the batch mutex is held: executions are serialised whatever the configured concurrency")
 		case "cb:Post":
 			m.onPost(c, s, life, ev, chk)
 		}
@@ -474,6 +477,10 @@ func (m *BatchMon) iterationEnd(c *eng.Ctx, s *batchState, r *covRec, life lifeS
 
 func (m *BatchMon) onExec(c *eng.Ctx, s batchState, life lifeState, ev *eng.Event, chk func(string, string, bool, string)) batchState {
 	s.cow()
+	// user code never runs inside the batch's critical section: one item blocking in exec
+	// would stop every other worker at its next lock (the limit would not be usable, and
+	// items that wait for each other would deadlock)
+	chk("C08.R8,C09.R2", "item-exec", s.held == 0, "an item's exec runs while the batch mutex is held: executions are serialised whatever the configured concurrency")
 	if !s.chainOpen {
 		for i := range s.recs {
 			if s.recs[i].done == 0 && s.recs[i].chains < 2 {
@@ -592,6 +599,10 @@ func (m *BatchMon) onStore(c *eng.Ctx, s batchState, life lifeState, ev *eng.Eve
 		}
 	case known && isErr:
 		r.failed = true
+		if lr := life.rec(life.execLoop); chainRan && life.cut && lastFail && lr != nil && lr.exited != 1 && !wrapsCtxErr(c, errT) {
+			// the item's own exec phase was interrupted by the cancellation (before an attempt or in the wait)
+			note(&r.cutBad, "an item whose exec phase was cut short by cancellation is recorded with "+errT.Pretty()+", which does not match the context's error")
+		}
 		switch {
 		case chainRan && (life.last == "Exec" || life.last == "Fb") && !lastFail:
 			note(&r.resBad, "slot receives an error ("+errT.Pretty()+") although the item's exec phase is not known to have failed: a successful outcome would be discarded")
@@ -688,7 +699,8 @@ func (m *BatchMon) onPost(c *eng.Ctx, s batchState, life lifeState, ev *eng.Even
 	}
 	chk("C06.R2", "post", rr.broken == "", "result slots are not written once per iteration: "+rr.broken)
 	chk("C06.R2", "post", rr.startOK, "the first iteration does not write slot 0")
-	chk("C06.R2,C07.R5,C09.R4,C11.R3", "post", rr.resBad == "", rr.resBad)
+	chk("C06.R2,C07.R5,C09.R4,C11.R3,C17.R1", "post", rr.resBad == "", rr.resBad)
+	chk("C20.R6,C11.R5", "post", rr.cutBad == "", rr.cutBad)
 	chk("C06.R5,C07.R2", "post", rr.iterBad == "", rr.iterBad)
 	chk("C17.R1,C06.R2", "post", rr.wrapBad == "", rr.wrapBad)
 	if rr.done == 1 {
